@@ -17,8 +17,9 @@
    * the model side: the parse outcome is predicted by Model/ParseGlue.v from the payload abstraction; the content is
      predicted to be preserved exactly when no converted value type is in the known class D10 (decided with the
      *generated* conversion tables); the generated tables must reproduce every observed conversion.
-   * known classes: 90x = the parse panics on this (valid) input (D09a-d, D09i-j); 101 / 102 / 103 = D10
-     (exnref / contref nullability, shared). *)
+   * known classes: 909 / 910 = Module::parse returns Err on this valid input because an entry of its name section
+     cannot be decoded (D09i / D09j; the panics D09a-d are repaired); 101 / 102 / 103 = D10 (exnref / contref
+     nullability, shared). *)
 From Coq Require Import List NArith Bool.
 From Orca Require Import Base.Util Model.ParseGlue Model.ValTypes Gen.GenDataTypeConv Proofs.ValTypeProofs Check.CheckParse.
 Import ListNotations.
@@ -86,8 +87,28 @@ Definition agree01 (c : rcase) : bool :=
   end.
 
 (* ---- known classes, decided on the input ---- *)
+(* a valid module that Module::parse rejects with Err because its name section cannot be decoded (custom sections
+   are not validated): 909 = an unreadable subsection, function-name entry, direct map entry or inner map of an
+   indirect entry; 910 = an unreadable outer entry of a local / label / field map.  (Before the repairs of D09i / D09j
+   these inputs made the parse panic.) *)
+Definition iitem_bad (i : iitem) : bool := match i with IIErr => true | IIMap ok => negb ok end.
+Definition nsub_class (s : nsub) : list N :=
+  match s with
+  | NSErr => [909]
+  | NSFunc l => if existsb (fun n => match n with NIErr => true | _ => false end) l then [909] else []
+  | NSMap ok => if ok then [] else [909]
+  | NSInd l => if existsb (fun i => match i with IIErr => true | _ => false end) l then [910]
+               else if existsb iitem_bad l then [909] else []
+  | NSOther => []
+  end.
+Definition name_class (l : list mev) : list N :=
+  dedup (flat_map (fun e => match e with MName subs => flat_map nsub_class subs | _ => [] end) l).
 Definition parse_class (c : rcase) : list N :=
-  match pred_parse c with OPanic k => if mem_N k known_panic_sites then [k] else [] | _ => [] end.
+  match pred_parse c with
+  | OErr => name_class (rc_mod c)
+  | OPanic k => if mem_N k known_panic_sites then [k] else []
+  | _ => []
+  end.
 Definition d10_classes (c : rcase) : list N :=
   (if existsb d10_exn (conv_types c) then [101] else []) ++
   (if existsb d10_cont (conv_types c) then [102] else []) ++
